@@ -101,6 +101,26 @@ Fixpoint typed (k : kind) (a : D) {struct k} : bool :=
   | KVec _ k' => match a with DL la => forallb (typed k') la | _ => false end
   end.
 
+(** Shape only: like [typed], but the reserved bits may hold anything. *)
+Fixpoint shaped (k : kind) (a : D) {struct k} : bool :=
+  match k with
+  | KEq | KLeft => true
+  | KOpt => match a with DO _ => true | _ => false end
+  | KAnd | KOr | KZero => match a with DB _ => true | _ => false end
+  | KRec ks =>
+      match a with
+      | DS la =>
+          (fix go (ks : list kind) (la : list D) {struct ks} : bool :=
+             match ks, la with
+             | [], [] => true
+             | k' :: ks', x :: la' => shaped k' x && go ks' la'
+             | _, _ => false
+             end) ks la
+      | _ => false
+      end
+  | KVec _ k' => match a with DL la => forallb (shaped k') la | _ => false end
+  end.
+
 (** A kind with lawful merging: no field is taken from one side only. *)
 Fixpoint lawful (k : kind) : bool :=
   match k with
@@ -113,9 +133,11 @@ Fixpoint lawful (k : kind) : bool :=
 (** Two PCZTs have shielded vectors of the same lengths (they describe the same shielded
     transaction shape). Positions: Pczt = [global; transparent; sapling; orchard; ironwood]. *)
 Definition len_of (d : D) : nat := match d with DL l => List.length l | _ => 0 end.
+Definition len1 (d : D) : nat := match d with DS (x :: _) => len_of x | _ => 0 end.
+Definition len2 (d : D) : nat := match d with DS (_ :: y :: _) => len_of y | _ => 0 end.
 Definition shielded_lens (p : D) : list nat :=
   match p with
-  | DS [_; _; DS (sp :: ou :: _); DS (oa :: _); DS (ia :: _)] => [len_of sp; len_of ou; len_of oa; len_of ia]
+  | DS [_; _; s; o; i] => [len1 s; len2 s; len1 o; len1 i]
   | _ => []
   end.
 Definition same_len (a b : D) : bool := list_eqb Nat.eqb (shielded_lens a) (shielded_lens b).
